@@ -1,5 +1,6 @@
 pub mod catp;
 pub mod codp;
+pub mod crashp;
 pub mod credp;
 pub mod encp;
 pub mod grpp;
@@ -28,6 +29,7 @@ pub fn plan(prop: &str, tier: &str) -> Option<(PropMeta, Vec<Job>)> {
         "C13" => Some(codp::plan(tier)),
         "C11" => Some(journp::plan(tier)),
         "C12" => Some(schedp::plan_c12(tier)),
+        "C04" => Some(crashp::plan(tier)),
         _ => None,
     }
 }
@@ -46,6 +48,7 @@ pub fn run_job(job: &Job) -> JobResult {
         "C13" => codp::run_job(job),
         "C11" => journp::run_job(job),
         "C12" => schedp::run_job(job),
+        "C04" => crashp::run_job(job),
         p => JobResult { machinery_error: Some(format!("unknown property {p}")), ..Default::default() },
     }
 }
